@@ -34,7 +34,7 @@ R = vlib.rng("C12")
 NOW = dt.datetime.now(dt.timezone.utc).replace(microsecond=0)
 P = ksrxml.POOL
 RSAK = [ksrxml.mk_key(P.rsa(1024, 65537, 40 + i), alg=8) for i in range(4)]
-ECK = [ksrxml.mk_key(P.ec(256, 40 + i), alg=13) for i in range(4)]
+ECK = [ksrxml.mk_key(P.ec(256, 40 + i), alg=13) for i in range(4)] + [ksrxml.mk_key(P.ec_x_first(13, 4), alg=13), ksrxml.mk_key(P.ec_x_lenlike(13), alg=13)]     # incl. keys whose octets begin like a SEC1 / DER prefix
 KS = {"ksk_current": skrgen.ksk("Kcur", 0), "ksk_next": skrgen.ksk("Knext", 1)}
 P.save()
 hist = {}
